@@ -99,7 +99,6 @@ func c44Size(h *H, packSize int) int {
 }
 
 func streamC44(h *H) {
-	defer c44Prof()()
 	buf := make([]byte, 1<<20)
 	// ---- pm: sequential, oracle observed --------------------------------------------------
 	n := h.N(150, 8000)
